@@ -391,7 +391,7 @@ def run_map_ext(run):
                     while isinstance(flat, list) and flat and all(x == flat[0] for x in flat):
                         flat = flat[0]
                     if not isinstance(flat, list):
-                        return ["NT", repr(flat), c[2]]
+                        return ["NT", repr(flat), c[2], None]
                 except Exception:  # noqa: BLE001
                     pass
             return [nts_as_nt(x) for x in c]
